@@ -17,7 +17,7 @@ Section TraceView.
 
   Definition shape_of (g : geom T) : shape O :=
     match g with
-    | GPlane _ _ => SPlane (O:=O)
+    | GPlane _ _ _ => SPlane (O:=O)
     | GStd _ _ R k => SStd R k
     | GEven _ _ R k tol mi cf => SEven R k cf tol (Z.to_nat mi)
     | GPoly _ _ R k tol mi cf => SPoly R k cf tol (Z.to_nat mi)
@@ -25,7 +25,7 @@ Section TraceView.
     end.
 
   Definition cs_of (g : geom T) : cs T :=
-    match g with GPlane _ c | GStd _ c _ _ | GEven _ c _ _ _ _ _ | GPoly _ c _ _ _ _ _ | GCheb _ c _ _ _ _ _ _ _ => c end.
+    match g with GPlane _ c _ | GStd _ c _ _ | GEven _ c _ _ _ _ _ | GPoly _ c _ _ _ _ _ | GCheb _ c _ _ _ _ _ _ _ => c end.
 
   Definition surf_of (w : T) (s : surface T) : option (surf O) :=
     let mk g pre post refl ap co :=
